@@ -6,7 +6,7 @@ from wire import CRec, Feat, feats_to_json, feats_from_json, positions
 
 TABLES = []
 LAKE_TARGETS = ["Moclo.Props.C08"]
-THEOREMS = ["Moclo.C08." + t for t in ["wf_rotr", "wf_flip", "wf_genbank", "part_inside_iff", "feature_kept_iff", "part_transport", "slice_all_or_nothing", "attributes_carried", "product_features"]]
+THEOREMS = ["Moclo.C08." + t for t in ["wf_rotr", "wf_flip", "wf_genbank", "part_inside_iff", "feature_kept_iff", "part_transport", "slice_all_or_nothing", "attributes_carried", "product_features", "product_is_concatenation_of_targets", "product_features_unrolled", "target_features"]]
 RULE = ("well-formed assemblies over every enzyme geometry whose records carry feature tables: simple, multi-part and "
         "origin-spanning locations on either strand or strandless, nested and abutting features, features touching "
         "or exceeding the fragment boundaries by one nucleotide, well-formed negative and over-the-end coordinates; "
